@@ -268,8 +268,51 @@ var (
 	curStartA   uint64
 	curStartCPU int64
 	curN        int64
+	curWall     int64 // monotonic ns at which the datagram in flight was handed over
 	inCase      int32
 )
+
+var procStart = time.Now()
+
+// blockedState looks at the goroutine that runs the cases (the one with childMain on its stack) and
+// says whether it is parked on a channel operation, a lock or a sleep - i.e. waiting for something,
+// not computing. A goroutine that is merely starved of CPU on a loaded machine is "runnable" or
+// "running", never any of these.
+func blockedState() (state, site string, blocked bool) {
+	buf := make([]byte, 1<<20)
+	buf = buf[:runtime.Stack(buf, true)]
+	for _, g := range strings.Split(string(buf), "\n\n") {
+		if !strings.Contains(g, "main.childMain(") { // the case loop itself, not the closures childMain started
+			continue
+		}
+		head := g
+		if i := strings.IndexByte(g, '\n'); i > 0 {
+			head = g[:i]
+		}
+		if i, j := strings.IndexByte(head, '['), strings.IndexByte(head, ']'); i >= 0 && j > i {
+			state = head[i+1 : j]
+		}
+		for _, l := range strings.Split(g, "\n") {
+			if strings.HasPrefix(l, "github.com/EdgeCast/vflow/") {
+				site = strings.TrimPrefix(l, "github.com/EdgeCast/vflow/")
+				if k := strings.LastIndex(site, "("); k > 0 {
+					site = site[:k]
+				}
+				break
+			}
+		}
+		st := state
+		if k := strings.IndexByte(st, ','); k > 0 {
+			st = st[:k]
+		}
+		switch {
+		case strings.HasPrefix(st, "chan "), strings.HasPrefix(st, "select"), strings.HasPrefix(st, "semacquire"), strings.HasPrefix(st, "sync."), st == "sleep", st == "IO wait":
+			return state, site, site != ""
+		}
+		return state, site, false
+	}
+	return "", "", false
+}
 
 func childMain(a mon.Args) {
 	famName := a.Rest["family"]
@@ -331,6 +374,15 @@ func childMain(a mon.Args) {
 					Msg: fmt.Sprintf("one datagram of %d octets had allocated %d MiB and was still being processed", atomic.LoadInt64(&curN), al>>20)})
 				os.Exit(97)
 			}
+			// parked, not computing: in flight for 3 s of wall time, next to no CPU used, and the goroutine that
+			// decodes is waiting on a channel, lock or timer inside collector code - it would wait for ever
+			if wall := time.Since(procStart).Nanoseconds() - atomic.LoadInt64(&curWall); wall > int64(3*time.Second) && cpu < 100*time.Millisecond {
+				if st, site, blocked := blockedState(); blocked && atomic.LoadInt32(&inCase) == 1 && int(atomic.LoadInt64(&curIdx)) == idx && int(atomic.LoadInt64(&curDI)) == di {
+					emit(event{T: "viol", Idx: idx, DI: di, Kind: "blocked", Site: site, N: int(atomic.LoadInt64(&curN)), Alloc: al,
+						Msg: fmt.Sprintf("processing one datagram of %d octets has not returned after %.1f s having used %d ms of CPU: the goroutine is parked [%s]", atomic.LoadInt64(&curN), float64(wall)/1e9, cpu.Milliseconds(), st)})
+					os.Exit(97)
+				}
+			}
 			if cpu > killCPU {
 				emit(event{T: "viol", Idx: idx, DI: di, Kind: "budget-cpu", N: int(atomic.LoadInt64(&curN)), Alloc: al,
 					Msg: fmt.Sprintf("one datagram of %d octets consumed %.1f s of CPU and was still being processed (allocated %d MiB)", atomic.LoadInt64(&curN), cpu.Seconds(), al>>20)})
@@ -378,6 +430,7 @@ func childMain(a mon.Args) {
 			atomic.StoreInt64(&curN, int64(n))
 			cpu0 := cpuNow()
 			atomic.StoreInt64(&curStartCPU, int64(cpu0))
+			atomic.StoreInt64(&curWall, time.Since(procStart).Nanoseconds())
 			// exact attribution: ReadMemStats flushes the per-P allocation caches, the cheap metric
 			// (used by the watchdog only) accounts small objects late, at span refill
 			runtime.ReadMemStats(&ms)
